@@ -4,7 +4,10 @@ correspondence : the recurrences of cg, cr, cgne, cgnr, steepest_descent, minima
                  direction update, side of the preconditioner, conjugations) as Lean models
                  (Model/C07Krylov.lean, run on Rat / Gaussian rationals, op `c07_iter`) vs the iterates the
                  public functions hand to `callback`, per k, relative 1e-8 (binary64 vs exact arithmetic on
-                 well-conditioned systems).
+                 well-conditioned systems); GMRES(MGS) single cycle and restarted, GMRES(Householder) and
+                 FGMRES (fixed and step-dependent preconditioner) as binary64 models (Model/C07Gmres.lean,
+                 Model/ExtC07Restart.lean, Model/ExtC07Hh.lean; ops c07_gmres_mgs, ext_gmres_restart,
+                 ext_gmres_hh, ext_fgmres) vs the callback iterates, same tolerance.
 search         : every public solver vs the SPECIFICATION-level minimiser, computed without any recurrence:
                  exact G-orthogonal projection on the power basis of the (preconditioned) Krylov space over
                  Rat / Gaussian rationals (op `c07_krylov_argmin`, Model/C07Argmin.lean; the result is
@@ -34,16 +37,21 @@ META = {
             'exact}; non-trivial = K >= 2 and r0 != 0; distinct = distinct (solver, options, input) tuples',
     'search_only': [
         'GMRES with Householder reflections and FGMRES (native kernels apply_householders / householder_hornerscheme / '
-        'apply_givens of krylov.h): iterates compared with the exact, certificate-checked minimiser (search); the theorems '
-        'gmres_optimal_of_givens / gmres_optimal_of_qr are about abstract Arnoldi + Givens data, the Householder reflections, '
-        'LAPACK lartg and the triangular solve are not modelled',
-        'GMRES(MGS): the executable model is run in binary64 and compared with the code; gmres_mgs_optimal_krylov is proved '
-        'for exact square roots (real case), fewer than n inner iterations, no breakdown; restarts, k = n and the reorth '
-        'option are search only',
+        'apply_givens of krylov.h): executable models (Model/ExtC07Hh.lean: Householder vectors, Givens rotations, back '
+        'substitution, x0 + Z y / Horner scheme) run in binary64 and compared with the callback iterates (ops ext_fgmres, '
+        'ext_gmres_hh; real case); fgmres_optimal (any preconditioner sequence) and gmres_householder_optimal_krylov are '
+        'proved for exact square roots, fewer than n inner iterations, non-singular triangular factor; LAPACK lartg / '
+        'sp.linalg.solve are modelled by their defining formulas; the iterate after exactly n inner iterations, complex '
+        'systems and the state after an exact breakdown (zero block left in Q) are search only',
+        'GMRES(MGS): the executable model is run in binary64 and compared with the code, single cycle (c07_gmres_mgs) and '
+        'restarted (ext_gmres_restart); gmres_mgs_optimal_krylov / gmres_restart_optimal (+ residual monotonicity across '
+        'restarts) are proved for exact square roots (real case), fewer than n inner iterations per cycle, no breakdown; '
+        'k = n and the reorth option are search only',
         'complex systems: the recurrence models run on Gaussian rationals and are compared with the code; the optimality '
         'theorems are stated over ordered fields (real case); the complex minimisers are checked by the unverified list '
         'version of the certificate test',
-        'flexible GMRES with a varying preconditioner: dense NumPy least-squares oracle over the recorded directions',
+        'flexible GMRES with a varying preconditioner: dense NumPy least-squares oracle over the recorded directions '
+        '(search) next to the model correspondence (ext_fgmres with the preconditioners used cyclically)',
         'preconditioned CR with a preconditioner commuting with A (alpha I + beta A): search only (cr_optimal is M = I)',
         'bicgstab: the property promises no minimiser; "solved within n steps" is only counted (feature bicgstab-solved), '
         'never judged',
@@ -427,6 +435,23 @@ def gmres_line(s, x0, k):
     return f'c07_gmres_mgs {";".join(_fbits(r) for r in s.A)} {";".join(_fbits(r) for r in s.Md)} {_fbits(s.b)} {_fbits(x0)} {k}'
 
 
+def ext_restart_line(s, x0, restart, cycles):
+    """restarted GMRES(MGS), Model/ExtC07Restart.lean, binary64"""
+    return (f'ext_gmres_restart {";".join(_fbits(r) for r in s.A)} {";".join(_fbits(r) for r in s.Md)} {_fbits(s.b)} '
+            f'{_fbits(x0)} {restart} {cycles}')
+
+
+def ext_hh_line(s, x0, k):
+    """one cycle of GMRES with Householder orthogonalisation, Model/ExtC07Hh.lean, binary64"""
+    return f'ext_gmres_hh {";".join(_fbits(r) for r in s.A)} {";".join(_fbits(r) for r in s.Md)} {_fbits(s.b)} {_fbits(x0)} {k}'
+
+
+def ext_fgmres_line(A, Ms, b, x0, k):
+    """one FGMRES cycle with the preconditioners Ms used cyclically, Model/ExtC07Hh.lean, binary64"""
+    mats = '|'.join(';'.join(_fbits(r) for r in M) for M in Ms)
+    return f'ext_fgmres {";".join(_fbits(r) for r in A)} {mats} {_fbits(b)} {_fbits(x0)} {k}'
+
+
 def parse_bits(reply):
     import struct
     if reply in ('-', 'bad-size') or reply.startswith('bad'):
@@ -565,6 +590,19 @@ def run_kry_cases(ctx, cases):
         if not cplx and not case['restart'] and (solver == 'gmres_mgs' or case['orthog'] == 'mgs') and s.n >= 2:
             it['gm'] = len(lines)
             lines.append(gmres_line(s, s.x0d, case['K']))
+        if not cplx and s.n >= 2:
+            # extension E11: restarted GMRES(MGS), GMRES(Householder), FGMRES models (binary64)
+            hh = solver == 'gmres_householder' or (solver == 'gmres' and case['orthog'] == 'householder')
+            mgs = solver == 'gmres_mgs' or (solver == 'gmres' and case['orthog'] == 'mgs')
+            if case['restart'] and mgs:
+                it['ext'] = ('restart', 'ext_gmres_restart', len(lines))
+                lines.append(ext_restart_line(s, s.x0d, case['restart'], case['K']))
+            elif not case['restart'] and hh:
+                it['ext'] = ('single', 'ext_gmres_hh', len(lines))
+                lines.append(ext_hh_line(s, s.x0d, case['K']))
+            elif not case['restart'] and solver == 'fgmres':
+                it['ext'] = ('single', 'ext_fgmres', len(lines))
+                lines.append(ext_fgmres_line(s.A, [s.Md], s.b, s.x0d, case['K']))
         items.append(it)
     rep1 = ctx.lean(lines, chunks=2 if len(lines) > 2000 else 1) if lines else []
     # phase 2: the real code; `k` never exceeds the grade ("the k-dimensional Krylov space" has to exist)
@@ -703,6 +741,34 @@ def run_kry_cases(ctx, cases):
                                  f'GMRES(MGS) model and implementation differ by {err:.3g} at iterate {j}')
                         break
                 ctx.feat('gmres-model-steps', min(len(mod), len(it['log'])))
+        # correspondence (extension E11): restarted GMRES(MGS) / GMRES(Householder) / FGMRES models vs callback log
+        if 'ext' in it and it.get('mode') == it['ext'][0] and (it['mode'] == 'restart' or it['grade'] > 0):
+            mode, op, li = it['ext']
+            mod = parse_bits(rep1[li])
+            if mod is None:
+                ctx.corr(op, pub, rep1[li][:200], 'n/a', 'driver rejected the request')
+            else:
+                scale = float(np.linalg.norm(am['xs'] - s.x0d))
+                log = it['log']
+                if mode == 'single':
+                    nmax = it['Keff']
+                else:
+                    # compare cycle by cycle until the preconditioned residual at a restart point is at rounding level
+                    m = case['restart']
+                    rn = lambda x: float(np.linalg.norm(s.Md @ (s.b - s.A @ x)))
+                    base, nmax, start = rn(s.x0d), 0, s.x0d
+                    while nmax < len(log) and np.all(np.isfinite(start)) and rn(start) > 1e-7 * base:
+                        nmax = min(nmax + m, len(log))
+                        start = log[nmax - 1]
+                ncmp = 0
+                for j, (xm, xi) in enumerate(zip(mod[:nmax], log), 1):
+                    err = float(np.linalg.norm(xm - xi)) if np.all(np.isfinite(xm)) else np.inf
+                    if err > TOL * scale + FLOOR * (float(np.linalg.norm(xi)) + float(np.linalg.norm(s.x0d))):
+                        ctx.corr(f'{op} step {j}', pub, xm.tolist(), xi.tolist(),
+                                 f'{op} model and implementation differ by {err:.3g} at iterate {j}')
+                        break
+                    ncmp += 1
+                ctx.feat(op + '-model-steps', ncmp)
 
 
 def run_line_cases(ctx, cases):
@@ -810,8 +876,10 @@ class _Varying:
 
 
 def run_flexible(ctx, N):
-    """fgmres with a varying preconditioner: x_k minimises ||b - A x|| over x0 + span{z_1..z_k} (dense oracle)"""
+    """fgmres with a varying preconditioner: x_k minimises ||b - A x|| over x0 + span{z_1..z_k} (dense oracle);
+    real case: the callback iterates are also compared with the FGMRES model of Model/ExtC07Hh.lean (op ext_fgmres)"""
     rng = ctx.np_rng
+    done = []
     for _ in range(N):
         cplx = bool(rng.random() < 0.4)
         n = int(rng.integers(2, 9))
@@ -828,7 +896,41 @@ def run_flexible(ctx, N):
                 'Ms': [_enc(m) for m in mats], 'K': K}
         ctx.case(key=_key('flex', A.tobytes(), b.tobytes(), x0.tobytes(), K, [m.tobytes() for m in mats]), nontrivial=True)
         ctx.feat('solver:fgmres-flexible')
-        judge_flexible(ctx, case)
+        log = judge_flexible(ctx, case)
+        if log is not None and not cplx:
+            done.append((case, log))
+    flexible_model(ctx, done)
+
+
+def flexible_model(ctx, done):
+    """correspondence: FGMRES model (binary64, preconditioners used cyclically) vs the callback log of fgmres"""
+    if not done:
+        return
+    lines = []
+    for case, _log in done:
+        A, b, x0 = np.atleast_2d(_dec(case['A'], False)), _dec(case['b'], False), _dec(case['x0'], False)
+        lines.append(ext_fgmres_line(A, [np.atleast_2d(_dec(m, False)) for m in case['Ms']], b, x0, case['K']))
+    rep = ctx.lean(lines)
+    for (case, log), r in zip(done, rep):
+        A, b, x0 = np.atleast_2d(_dec(case['A'], False)), _dec(case['b'], False), _dec(case['x0'], False)
+        mod = parse_bits(r)
+        if mod is None:
+            ctx.corr('ext_fgmres', case, r[:200], 'n/a', 'driver rejected the request')
+            continue
+        N0 = float(np.linalg.norm(b - A @ x0))
+        scale = float(np.linalg.norm(np.linalg.solve(A, b) - x0))
+        prev, ncmp = x0, 0
+        for j, (xm, xi) in enumerate(zip(mod, log), 1):
+            if float(np.linalg.norm(b - A @ prev)) <= 1e-9 * N0:
+                break          # converged: the Krylov space is exhausted, what follows is rounding noise
+            err = float(np.linalg.norm(xm - xi)) if np.all(np.isfinite(xm)) else np.inf
+            if err > TOL * scale + FLOOR * (float(np.linalg.norm(xi)) + float(np.linalg.norm(x0))):
+                ctx.corr(f'ext_fgmres (varying preconditioner) step {j}', case, xm.tolist(), xi.tolist(),
+                         f'FGMRES model and implementation differ by {err:.3g} at iterate {j}')
+                break
+            prev = xi
+            ncmp += 1
+        ctx.feat('ext_fgmres-flexible-model-steps', ncmp)
 
 
 def judge_flexible(ctx, case):
@@ -846,7 +948,7 @@ def judge_flexible(ctx, case):
                              callback=lambda v: log.append(np.array(v, copy=True).ravel()))
     except Exception as e:       # noqa: BLE001
         ctx.violation(f'fgmres with a varying preconditioner raised {type(e).__name__}: {e}', case)
-        return
+        return None
     r0 = b - A @ x0
     N0 = float(np.linalg.norm(r0))
     for k in range(1, min(len(log), len(V.out)) + 1):
@@ -858,7 +960,8 @@ def judge_flexible(ctx, case):
             ctx.violation(f'fgmres with a varying preconditioner: iterate {k} does not minimise the residual over x0 + span of '
                           f'the {k} preconditioned directions: {np.linalg.norm(b - A @ log[k - 1]):.12g} vs minimum '
                           f'{np.linalg.norm(b - A @ y):.12g}', case)
-            return
+            return log
+    return log
 
 
 def run_bicgstab(ctx, N):
@@ -924,7 +1027,9 @@ def replay(ctx, data):
     elif kind == 'line':
         run_line_cases(ctx, [{k: v for k, v in case.items() if k != 'kind'}])
     elif kind == 'flex':
-        judge_flexible(ctx, case)
+        log = judge_flexible(ctx, case)
+        if log is not None and not case['cplx']:
+            flexible_model(ctx, [(case, log)])
     for v in ctx.violations:
         print('  ', v['what'])
     if not ctx.violations:
